@@ -282,6 +282,7 @@ type pendingTask struct {
 
 type cluster struct {
 	lastTN    tnConn
+	lastHeard map[uint64]heardRec
 	initNodes map[uint64]Node // the initial configuration (init action)
 	net     *simNet
 	base    string
@@ -376,6 +377,7 @@ func newCluster(seed int64) *cluster {
 		hookHits: map[string]int{},
 		mons:     map[int]*streamMon{},
 		respInStep: map[uint64]int{},
+		lastHeard:  map[uint64]heardRec{},
 		snapSeen: map[string]bool{},
 		eagerLeader: map[uint64][]uint64{},
 		nextCmd:  1,
@@ -840,6 +842,27 @@ func installTracer() {
 			e.cfg = r.configs.clone()
 			if r.state == Leader && r.ldr != nil {
 				e.a = r.ldr.startIndex
+				// has this leader committed an entry of its own term? Judged from the log
+				// itself (terms never decrease along the log), not from the library's own
+				// bookkeeping: 1 yes, 2 no, 0 cannot tell (compacted)
+				ci := r.commitIndex
+				if ci > r.log.PrevIndex() && ci <= r.log.LastIndex() {
+					if b, err := r.log.Get(ci); err == nil && len(b) >= 16 {
+						if binary.LittleEndian.Uint64(b[8:16]) == r.term {
+							e.b = 1
+						} else {
+							e.b = 2
+						}
+					}
+				} else if si, st := r.snaps.latest(); ci == si && ci > 0 {
+					if st == r.term {
+						e.b = 1
+					} else {
+						e.b = 2
+					}
+				} else if ci == 0 {
+					e.b = 2
+				}
 			}
 		})
 	}
